@@ -87,3 +87,7 @@ open Pandora.C12
 #print axioms Pandora.C12KernelsRegul.scan_eq
 #print axioms Pandora.C12KernelsRegul.connRow_eq
 #print axioms Pandora.C12KernelsRegul.connectionGraph_generated_eq
+#print axioms Pandora.C12KernelsRegul.closure_step_eq
+#print axioms Pandora.C12KernelsRegul.closeRow_core
+#print axioms Pandora.C12KernelsRegul.createConnectedGraph_generated_eq
+#print axioms Pandora.C12KernelsRegul.intervalRegularization_over_generated
